@@ -514,6 +514,18 @@ example : ((mkCtx "deploy".toList {} [⟨"host".toList, .empty⟩, ⟨"retries".
 example : ((mkCtx "docs.build".toList {} [⟨"fmt".toList, .str "html".toList⟩]).toOption.map Ctx.flagNames,
            (mkCtx "www.build".toList {} [⟨"minify".toList, .bool false⟩]).toOption.map Ctx.flagNames) =
     (some ["--fmt".toList, "-f".toList], some ["--minify".toList, "-m".toList]) := by decide
+/-- one function, two decorations: `def deploy(c, hosts, env='dev')` as it stands and with
+    `@task(positional=[], iterable=['hosts'])` - the same signature with other options is another CLI
+    (`hosts` positional string vs. repeatable `--hosts` list flag defaulting to `[]`) -/
+example : ((mkCtx "dev.deploy".toList {} [⟨"hosts".toList, .empty⟩, ⟨"env".toList, .str "dev".toList⟩]).toOption.map
+    Ctx.positionalNames) = some ["hosts".toList] := by decide
+example : ((mkCtx "dev.deploy".toList {} [⟨"hosts".toList, .empty⟩, ⟨"env".toList, .str "dev".toList⟩]).toOption.map
+    Ctx.asKwargs) = some [("hosts".toList, .none), ("env".toList, .s "dev".toList)] := by decide
+example : ((mkCtx "ci.deploy".toList { positional := some [], iterable := ["hosts".toList] }
+    [⟨"hosts".toList, .empty⟩, ⟨"env".toList, .str "dev".toList⟩]).toOption.map Ctx.positionalNames) = some [] := by decide
+example : ((mkCtx "ci.deploy".toList { positional := some [], iterable := ["hosts".toList] }
+    [⟨"hosts".toList, .empty⟩, ⟨"env".toList, .str "dev".toList⟩]).toOption.map Ctx.asKwargs) =
+    some [("hosts".toList, .l []), ("env".toList, .s "dev".toList)] := by decide
 /-- the error side of `built_iff_no_clash` is inhabited too -/
 example : ¬ NoInverseCollision {} [⟨"color".toList, .bool true⟩, ⟨"no_color".toList, .bool false⟩] := by
   intro h
